@@ -521,8 +521,13 @@ func (f *FrameV1) SetAppendixData(appendix []byte) error {
 		return errors.New("appendix data too big")
 
 	case len(appendix) > len(f.data)-f.appendixIndex:
+		// Not enough space in the current slice, move to a bigger one.
 		f.data = f.data[:origDataSize]
-		return errors.New("not enough space for appendix")
+		if err := f.moveToBiggerSlice(f.appendixIndex + len(appendix)); err != nil {
+			return err
+		}
+		f.data = f.data[:cap(f.data)]
+		fallthrough
 
 	default:
 		// Write new appendix.
@@ -534,6 +539,29 @@ func (f *FrameV1) SetAppendixData(appendix []byte) error {
 
 		return nil
 	}
+}
+
+// moveToBiggerSlice moves the frame to a pooled slice that can hold frame data
+// of the given size (plus the configured margins) and returns the previous
+// pooled slice to the pool.
+func (f *FrameV1) moveToBiggerSlice(dataSize int) error {
+	if f.builder == nil {
+		return errors.New("not enough space for appendix")
+	}
+	_, overhead := f.builder.FrameMargins()
+	ps := f.builder.GetPooledSlice(f.psDataOffset + dataSize + overhead)
+	if ps == nil {
+		return errors.New("not enough space for appendix")
+	}
+
+	// Copy frame, switch to new slice and return the old one.
+	copy(ps[f.psDataOffset:], f.data)
+	if f.pooledSlice != nil {
+		f.builder.ReturnPooledSlice(f.pooledSlice)
+	}
+	f.pooledSlice = ps
+	f.data = ps[f.psDataOffset : f.psDataOffset+len(f.data)]
+	return nil
 }
 
 // FrameDataWithMargins returns the whole frame, including the given offset and overhead.
